@@ -1478,18 +1478,8 @@ func c05PageRefs(p *load.Program, r *oblig.Report) {
 				return
 			}
 			nPut++
-			inZero := false
-			if par := fn.Parent(); par != nil {
-				an.EachInstr(par, func(i2 ssa.Instruction) {
-					if c2, ok := i2.(*ssa.Call); ok && an.StaticCalleeIs(&c2.Call, rcUnref) {
-						for _, a := range c2.Call.Args {
-							if mc, ok := a.(*ssa.MakeClosure); ok && mc.Fn == ssa.Value(fn) {
-								inZero = true
-							}
-						}
-					}
-				})
-			}
+			// a function literal handed to unref, or a method handed to it as a method value and called from nowhere else
+			inZero := handedOnlyTo(fn, func(f *ssa.Function) bool { return f == rcUnref })
 			r.Check(inZero, rule, an.ShortFunc(fn)+" → "+d+".Put only when the reference count reached zero", p.Pos(c.Pos()), "inside the onZero callback of (*refCount).unref", "called elsewhere")
 		})
 	}
